@@ -53,7 +53,11 @@ func main() {
 		os.Stdout.Write(b)
 		fmt.Println()
 	case "ssa":
-		p, err := core.Load("/repo", "", nil)
+		repoDir := "/repo"
+		if d := os.Getenv("VERIF_REPO"); d != "" {
+			repoDir = d
+		}
+		p, err := core.Load(repoDir, "", nil)
 		if err != nil {
 			fmt.Println(err)
 			os.Exit(1)
